@@ -56,11 +56,11 @@ Proof.
   apply in_flat_map. exists s. split; auto.
 Qed.
 
-Lemma rt_sig_simple : forall s,
+Lemma rt_sig_simple : forall lim s,
   In s (all_sigs n) -> sig_simple s = true -> sig_okb ev s = true -> sig_dom s = true ->
-  load_sig now ev' (save_sig s) = Ok (sig_set_pos s 0) /\ sig_size ev' s = sig_size ev s.
+  load_sig now ev' lim (save_sig s) = Ok (sig_set_pos s 0) /\ sig_size ev' s = sig_size ev s.
 Proof.
-  intros s Hs Hsimple Hok Hd.
+  intros lim s Hs Hsimple Hok Hd.
   destruct s as [h t u|h e|h c z g]; [| |discriminate].
   - (* standard *)
     cbn [sig_okb sig_head] in Hok. apply andb_true_iff in Hok. destruct Hok as [Hasg Hrefs].
